@@ -1,7 +1,7 @@
 (* Driver: operation histories against the Updater model -- C01..C07 (C19, C20 use the
    same cases with ignore configurations / several versions). *)
 From Coq Require Import List ZArith String Ascii Bool Arith.
-From SMD Require Import Base.Sexp Model.Value Model.Order Model.PathElem Model.PathSet
+From SMD Require Import Proofs.SetCheckers Base.Sexp Model.Value Model.Order Model.PathElem Model.PathSet
   Model.Schema Model.Walk Model.Validate Model.FieldSet Model.Remove Model.Merge Model.Compare
   Model.Matcher Model.Reconcile Model.Updater Model.Codec
   Spec.PathsAsSets Spec.Resolve Spec.RefValid Spec.RefDiff Spec.Agree Spec.Patterns Spec.TypeAt Driver.Common Driver.Typed.
@@ -515,8 +515,25 @@ Definition run_hist_apply (prop : string) (schemas : list (string * schema)) (hc
           let nt :=
             (* >= 2 managers before the step and the apply drops or changes something *)
             if Nat.leb 2 (List.length mobs) then 1 else 0 in
+          (* do the side conditions of the general theorem C01_apply_takes_effect hold in
+             this (implementation-produced) state?  Reported as a tag, decides nothing. *)
+          let thm_hyps :=
+            Nat.eqb (List.length (hc_versions hc)) 1 &&
+            match hc_ignore hc with HIgnNone => true | _ => false end &&
+            negb (existsb (fun td : string * atom =>
+                             match snd td with
+                             | Atom _ _ (Some (MapT fs _ _)) =>
+                                 existsb (fun f => match f with SField _ _ (Some _) => true | _ => false end) fs
+                             | _ => false
+                             end) s) &&
+            match mf_get mgr mf with Some r => keys_closed_b (mr_set r) | None => true end &&
+            forallb (fun mr : string * mrec =>
+                       String.eqb (fst mr) mgr || owns_live_keys_b s tr (snd live) (mr_set (snd mr))) mf &&
+            match kind_of s tr cfg with KMap _ _ | KList _ _ => true | _ => false end &&
+            plain cfg in
           mkOut (corr @@ prop_msgs) 4 nt
-            [match noforce with HOk None _ => "noop" | HOk _ _ => "applied" | HConflict _ => "conflict" | _ => "failed" end]
+            ([match noforce with HOk None _ => "noop" | HOk _ _ => "applied" | HConflict _ => "conflict" | _ => "failed" end]
+             ++ (if String.eqb prop "C01" then [if thm_hyps then "theorem-hypotheses-hold" else "theorem-hypotheses-do-not-hold"] else []))%list
       | _, _, _, _ => out_bad "hist.apply outcomes"
       end
   | _, _, _, _, _ => out_bad "hist.apply decode"
